@@ -131,4 +131,6 @@ GHOST = {
     'tx_finished': 'Set[Int]',
     # ids queued for sending and not yet finished / ids announced as received and not yet popped (C18)
     'tx_live': 'Set[Int]', 'rx_live': 'Set[Int]',
+    # octets of the received stream already consumed as complete messages (C07)
+    'rx_consumed': 'Bytes',
 }
